@@ -198,6 +198,56 @@ theorem encodeWvDate_basic_utc (d : DateTime) :
   rw [wvUseInline_basic_utc]
   simp [basic_some]
 
+/-! ### no zone designator (outside the property: recorded as an observation) -/
+
+theorem basic_none (d : DateTime) :
+    basic d none =
+      [dig (d.year / 1000), dig (d.year / 100), dig (d.year / 10), dig d.year, dig (d.month / 10), dig d.month,
+       dig (d.day / 10), dig d.day, 0x54, dig (d.hour / 10), dig d.hour, dig (d.minute / 10), dig d.minute,
+       dig (d.second / 10), dig d.second] := by
+  simp [basic, d4, d2]
+
+theorem ne_Z_dig_tbl : ∀ k, k < 10 → (UInt8.ofNat (48 + k) == (0x5A : UInt8)) = false := by decide
+
+theorem contains_basic_none_false (d : DateTime) (c : UInt8) (hd : ∀ n, (c == dig n) = false)
+    (hT : (c == (0x54 : UInt8)) = false) : (basic d none).contains c = false := by
+  rw [basic_none]
+  simp only [List.contains_cons, List.contains_nil, hd, hT, Bool.or_false]
+
+theorem wvUseInline_basic_none (d : DateTime) : wvUseInline (basic d none) = false := by
+  have hl : (dig d.second == (0x5A : UInt8)) = false := ne_Z_dig_tbl _ (Nat.mod_lt _ (by decide))
+  have hlast : ((basic d none).getLast? == some 0x5A) = false := by
+    rw [basic_none]
+    simp only [List.getLast?_cons_cons, List.getLast?_singleton]
+    cases hb : (some (dig d.second) == some (0x5A : UInt8))
+    · rfl
+    · exfalso
+      have := Option.some.inj (beq_iff_eq.mp hb)
+      rw [this] at hl; revert hl; decide
+  unfold wvUseInline
+  rw [contains_basic_none_false d 0x2D (fun n => (ne_dig n).1) (by decide),
+    contains_basic_none_false d 0x2B (fun n => (ne_dig n).2.1) (by decide),
+    contains_basic_none_false d 0x3A (fun n => (ne_dig n).2.2) (by decide), hlast]
+  rfl
+
+theorem encodeWvDate_basic_none (d : DateTime) (h : d.Valid) :
+    encodeWvDate (basic d none) =
+      .ok (if d.year > 4095 then .inline (basic d none)
+           else .opaque (wvPack d.year d.month d.day d.hour d.minute d.second 0)) := by
+  obtain ⟨hy, _, hmo, _, hd2, hh, hm, hs⟩ := h
+  have hd31 := daysInMonth_le d.year d.month
+  have y4 := decVal_d4 d.year (by omega)
+  have m2 := decVal_d2 d.month (by omega)
+  have dd2 := decVal_d2 d.day (by omega)
+  have h2 := decVal_d2 d.hour (by omega)
+  have mi2 := decVal_d2 d.minute (by omega)
+  have s2 := decVal_d2 d.second (by omega)
+  simp only [d4, d2] at y4 m2 dd2 h2 mi2 s2
+  unfold encodeWvDate
+  rw [wvUseInline_basic_none d, basic_none]
+  simp [wvDateOpaque, isDigit_dig, List.eraseIdx, y4, m2, dd2, h2, mi2, s2]
+  split <;> rfl
+
 /-! ### what the decoder prints -/
 
 theorem wvZoneText_zone (z : UInt8) (hz : isZone z = true) : wvZoneText z = [z] := by
